@@ -2270,5 +2270,129 @@ def cmd_scaling(args):
 CMDS["scaling"] = cmd_scaling
 
 
+
+# ---------------------------------------------------------------------------
+# C06 pyc header decoding
+
+
+def cmd_headers(args):
+    from xdis.load import load_module
+
+    acc = Acc()
+    for it in args["items"]:
+        pyc, exp = it["pyc"], it["expect"]
+        acc.evaluations += 1
+        tag = "v%s|%s" % (exp["vtag"], exp["form"])
+        try:
+            r = load_module(pyc, get_code=it.get("get_code", True))
+        except BaseException as e:
+            if isinstance(e, (KeyboardInterrupt, SystemExit)):
+                raise
+            acc.mismatch("C06|load_module-raises:%s|%s" % (type(e).__name__, tag), file=it["label"], msg=str(e)[-200:])
+            continue
+        (version, ts, magic_int, co, is_pypy, size, sip) = r
+        if tuple(version[:2]) != tuple(exp["version"]):
+            acc.mismatch("C06|version|%s" % tag, file=it["label"], expected=exp["version"], observed=list(version))
+        if magic_int != exp["magic"] and not (exp["magic"] == 48 and magic_int == 3187):
+            # (PyPy 3.2 stores the odd magic 48; xdis documents reporting it as 3180+7)
+            acc.mismatch("C06|magic|%s" % tag, file=it["label"], expected=exp["magic"], observed=magic_int)
+        for name, got in (("timestamp", ts), ("source_size", size), ("sip_hash", sip)):
+            want = exp[name]
+            if got != want:
+                kind = "present-but-should-be-absent" if want is None else ("absent-but-should-be-present" if got is None else "value")
+                acc.mismatch("C06|%s|%s|%s" % (name, kind, tag), file=it["label"], expected=want, observed=got,
+                             flags=exp.get("flags"))
+        if it.get("get_code", True) and it.get("payload_magic_int") is not None:
+            # the code object is the one that starts right after the header
+            try:
+                with open(it["payload_file"], "rb") as f:
+                    payload = f.read()
+                import xdis.unmarshal as um
+                from xdis.codetype.base import CodeBase
+
+                ref = um.load_code(io.BytesIO(payload), it["payload_magic_int"])
+                V = tuple(exp["version"])
+                a = C.short(C.canon(ref, V, "full"))
+                b = C.short(C.canon(co, V, "full"))
+                if a != b:
+                    acc.mismatch("C06|code-not-right-after-header|%s" % tag, file=it["label"])
+            except Exception as e:
+                acc.count("c06_payload_reference_unavailable")
+        acc.distinct.add(sha([exp["magic"], exp["form"], exp.get("flags"), exp["timestamp"], exp["source_size"], exp["sip_hash"]]))
+        if len(acc.samples) < 4:
+            acc.sample({"file": it["label"], "expect": exp})
+    return acc.result()
+
+
+CMDS["headers"] = cmd_headers
+
+
+
+# ---------------------------------------------------------------------------
+# C10 synthesised marshal encodings
+
+
+def cmd_marshsynth(args):
+    import binascii
+
+    import xdis.unmarshal as um
+
+    acc = Acc()
+    V = tuple(args["version"])
+    magic_int = args["magic_int"]
+    with open(args["streams"]) as f:
+        streams = json.load(f)
+    truths = []
+    with open(args["truth"]) as f:
+        for line in f:
+            line = line.strip()
+            if line:
+                truths.append(json.loads(line))
+    if len(truths) != len(streams):
+        acc.count("c10_truth_incomplete")
+    for st, tr in zip(streams, truths):
+        if not tr.get("ok"):
+            acc.count("c10_stream_rejected_by_reference:" + tr.get("error", "?"))
+            continue
+        acc.evaluations += 1
+        data = binascii.unhexlify(st["hex"])
+        labels = st["labels"]
+        try:
+            fp = io.BytesIO(data)
+            co = um.load_code(fp, magic_int)
+            consumed = fp.tell()
+            got = C.canon(co.co_consts, V, "full")
+        except BaseException as e:
+            if isinstance(e, (KeyboardInterrupt, SystemExit)):
+                raise
+            tbs = traceback.extract_tb(sys.exc_info()[2])
+            site = [t.name for t in tbs if "/xdis/" in t.filename]
+            base = sorted(set(l.rstrip("*") for l in labels))
+            acc.mismatch("C10|v%s|raises:%s@%s|elems=%s" % (vs(V), type(e).__name__, site[-1] if site else "?",
+                                                           ",".join(base) if len(base) <= 2 else "multi"),
+                         labels=labels, hex=st["hex"][:400], msg=str(e)[:120])
+            continue
+        want = tr["canon"]
+        if got != want:
+            d = C.first_diff(want, got, "co_consts")
+            where, a, b = d
+            m = _re.match(r"co_consts/(\d+)", where)
+            lab = labels[int(m.group(1))] if m and int(m.group(1)) < len(labels) else "?"
+            ka, kb = C.kind_of(a), C.kind_of(b)
+            what = "kind:%s->%s" % (ka, kb) if ka != kb else ("length" if "/len" in where else "value:%s" % ka)
+            acc.mismatch("C10|v%s|%s|elem=%s" % (vs(V), what, lab), where=where, labels=labels, expected=json.dumps(a)[:160],
+                         observed=json.dumps(b)[:160], hex=st["hex"][:400])
+        elif consumed != len(data):
+            acc.mismatch("C10|v%s|consumed" % vs(V), expected=len(data), observed=consumed, labels=labels)
+        if any(("*" in l) or ("ref->" in l) or l.split(":")[0] not in ("singleton",) for l in labels):
+            acc.distinct.add(sha([st["labels"], st["codes"]]))
+        if len(acc.samples) < 3:
+            acc.sample({"version": vs(V), "labels": labels, "type_codes": st["codes"], "nbytes": len(data)})
+    return acc.result()
+
+
+CMDS["marshsynth"] = cmd_marshsynth
+
+
 if __name__ == "__main__":
     main()
